@@ -16,6 +16,7 @@ import (
 	"github.com/ucan-wg/go-ucan/pkg/args"
 	"github.com/ucan-wg/go-ucan/pkg/command"
 	"github.com/ucan-wg/go-ucan/pkg/meta"
+	"github.com/ucan-wg/go-ucan/pkg/policy"
 	"github.com/ucan-wg/go-ucan/pkg/policy/literal"
 	"github.com/ucan-wg/go-ucan/token"
 	"github.com/ucan-wg/go-ucan/token/delegation"
@@ -1345,11 +1346,132 @@ func fmtNums(x []*big.Float) string {
 	return "[" + strings.Join(s, ",") + "]"
 }
 
+// ---- out-of-range integers at depth ----
+
+type c10DeepCase struct {
+	Depth int    `json:"depth"`
+	Nest  string `json:"nest"`  // lists | maps | mixed
+	Val   string `json:"val"`   // 2^53 | -2^53 | 2^60 | min64 | ok(2^53-1)
+	Where string `json:"where"` // arg-go | arg-node | policy-literal | signed-args | signed-policy
+}
+
+func (c *c10DeepCase) Weight() int { return c.Depth }
+
+func c10DeepNode(depth int, nest string, leaf datamodel.Node) datamodel.Node {
+	n := leaf
+	for i := 0; i < depth; i++ {
+		useMap := nest == "maps" || (nest == "mixed" && i%2 == 1)
+		if useMap {
+			n = nMap(kv{"k", n})
+		} else {
+			n = nList(n)
+		}
+	}
+	return n
+}
+
+func c10DeepSub() *engine.Sub {
+	vals := map[string]int64{"2^53": 1 << 53, "-2^53": -(1 << 53), "2^60": 1 << 60, "min64": math.MinInt64, "ok(2^53-1)": 1<<53 - 1}
+	return &engine.Sub{
+		Name:   "out-of-range-integers-at-depth",
+		Repeat: true,
+		Rule:   "an integer beyond +/-(2^53-1) under d nested lists / maps / alternating lists and maps, d on both sides of 8, 16, 32, 64, 128, 256 and 1024: as a Go value and as an IPLD node handed to invocation.WithArgument, as a policy literal handed to delegation.New, and inside the arguments / the policy of a correctly signed payload offered to the decoders: never accepted (a constructor that accepts it must not hold an out-of-range integer; a decoder must reject); the in-range neighbour 2^53-1 at the same depth is the control; non-trivial = all",
+		Bound:  func(string) string { return "18 depths x 3 nestings x 5 values x 5 entry points" },
+		Gen: func(tier string, emit func(any) bool) {
+			for _, d := range []int{0, 1, 2, 7, 8, 9, 15, 16, 17, 31, 32, 33, 63, 64, 65, 66, 127, 128, 129, 255, 256, 257, 1023, 1024, 1025} {
+				for _, nest := range []string{"lists", "maps", "mixed"} {
+					for v := range vals {
+						for _, w := range []string{"arg-go", "arg-node", "policy-literal", "signed-args", "signed-policy"} {
+							if !emit(&c10DeepCase{d, nest, v, w}) {
+								return
+							}
+						}
+					}
+				}
+			}
+		},
+		NewCase: func() any { return &c10DeepCase{} },
+		Run: func(ctx *engine.Ctx, c any) {
+			cs := c.(*c10DeepCase)
+			v := vals[cs.Val]
+			inRange := cs.Val == "ok(2^53-1)"
+			node := c10DeepNode(cs.Depth, cs.Nest, nInt(v))
+			k := fixtures.Get("ed25519", 0)
+			ctx.States(1)
+			ctx.Eval(1)
+			ctx.Trans(1)
+			ctx.Nontrivial(1)
+			var tok any
+			var err error
+			var pan any
+			func() {
+				defer func() { pan = recover() }()
+				switch cs.Where {
+				case "arg-go":
+					var gv any = v
+					for i := 0; i < cs.Depth; i++ {
+						if cs.Nest == "maps" || (cs.Nest == "mixed" && i%2 == 1) {
+							gv = map[string]any{"k": gv}
+						} else {
+							gv = []any{gv}
+						}
+					}
+					tok, err = invocation.New(k.DID, otherPrincipal(k, 1), "/a", []cid.Cid{cidPool[0]}, invocation.WithNonce([]byte("0123456789ab")), invocation.WithArgument("v", gv))
+				case "arg-node":
+					tok, err = invocation.New(k.DID, otherPrincipal(k, 1), "/a", []cid.Cid{cidPool[0]}, invocation.WithNonce([]byte("0123456789ab")), invocation.WithArgument("v", node))
+				case "policy-literal":
+					pol, perr := policy.Construct(policy.Equal(".a", node))
+					if perr != nil {
+						err = perr
+						return
+					}
+					tok, err = delegation.New(k.DID, otherPrincipal(k, 1), "/a", pol, delegation.WithSubject(k.DID), delegation.WithNonce([]byte("0123456789ab")))
+				case "signed-args", "signed-policy":
+					kind := "inv"
+					if cs.Where == "signed-policy" {
+						kind = "dlg"
+					}
+					p := c10BasePayload(kind, "ed25519")
+					var es []kv
+					for _, e := range p.Payload {
+						switch {
+						case e.K == "args" && kind == "inv":
+							e = kv{"args", nMap(kv{"v", node})}
+						case e.K == "pol" && kind == "dlg":
+							e = kv{"pol", nList(nList(nStr("=="), nStr(".a"), node))}
+						}
+						es = append(es, e)
+					}
+					sealed := assemble(k, sigPayloadNode(p.Header, p.Tag, nMap(es...)))
+					if kind == "inv" {
+						tok, _, err = invocation.FromSealed(sealed)
+					} else {
+						tok, _, err = delegation.FromSealed(sealed)
+					}
+				}
+			}()
+			tag := cs.Where + "/" + cs.Nest
+			switch {
+			case pan != nil:
+				ctx.Outcome("panic")
+				ctx.Failf(cs, "panics-instead-of-rejecting/int-at-depth/"+tag, "%s with %s under %d nested %s panics: %v", cs.Where, cs.Val, cs.Depth, cs.Nest, pan)
+			case err != nil:
+				ctx.Outcome("rejected")
+			case inRange:
+				ctx.Outcome("accepted-in-range")
+			default:
+				ctx.Outcome("accepted-out-of-range")
+				ctx.Failf(cs, "accepted-must-reject/int-at-depth/"+tag, "%s accepts the integer %s under %d nested %s (a token then holds an integer beyond +/-(2^53-1): %T)", cs.Where, cs.Val, cs.Depth, cs.Nest, tok)
+			}
+		},
+	}
+}
+
 func C10() *engine.Check {
 	return &engine.Check{
 		Property: "C10",
 		Level:    "model_checking",
-		Subs:     []*engine.Sub{c10CtorSub(), c10DecoderSub(), c10ShapeSub(), c10ValueSub(), c07SharedSub(), c10ConcSub(), concRaceSub("C10")},
+		Subs:     []*engine.Sub{c10CtorSub(), c10DecoderSub(), c10ShapeSub(), c10ValueSub(), c10DeepSub(), c07SharedSub(), c10ConcSub(), concRaceSub("C10")},
 		Assumptions: []string{
 			"must-reject expectations are derived from the property statement and the IPLD schemas (required / optional / nullable, field kinds); anything else may be accepted as long as the returned token is well formed",
 			"metadata integers are not bounded by the property; only argument and policy integers and time bounds are",
